@@ -22,6 +22,7 @@ DESTROY = set(VRP_OPS[:5])
 LOG = []  # (class suffix, detail)   -- deciding (C18 speaks about every operator application)
 COUNT = {}  # evaluation counters
 INFO = {}  # informational anomalies (L2 only)
+CAP_LOG = []  # capacity-infeasible insertions (informational unless the property module decides otherwise)
 TRACE = []  # last applications: (depth, operator, pre digest, post digest, n new anomalies)
 _depth = [0]
 _attached = {"vrp": False, "js": False}
@@ -37,6 +38,7 @@ def reset():
     COUNT.clear()
     INFO.clear()
     TRACE.clear()
+    CAP_LOG.clear()
     _depth[0] = 0
 
 
@@ -132,6 +134,9 @@ def _judge(name, pre, pre_an, state_in, out, a, k):
         over = O.overloaded_gain(pre, post)
         if over:
             _tick(INFO, "l2.vrp.capacity-insertion", len(over))
+            if len(CAP_LOG) < 10:
+                CAP_LOG.append(f"after {name}{_args(a, k)} on {pre.digest()}: routes that gained a visit are over "
+                               f"capacity (route, load, capacity) {over}; returned {post.digest()}")
 
 
 def _args(a, k):
